@@ -20,6 +20,10 @@ HERE = os.path.dirname(os.path.abspath(__file__))
 VERIF = os.path.dirname(HERE)
 sys.path.insert(0, HERE)
 
+if os.environ.get('VERIF_LINECOV'):     # diagnostic: which implementation lines the run reaches
+    import linecov
+    linecov.start(os.path.join(os.environ.get('HS_REPO', '/repo'), 'healsparse'))
+
 import core  # noqa: E402
 import leanaudit  # noqa: E402
 
@@ -266,7 +270,10 @@ def main():
 
 if __name__ == '__main__':
     try:
-        sys.exit(main())
+        rc = main()
+        if os.environ.get('VERIF_LINECOV'):
+            linecov.dump(os.path.join(os.environ['VERIF_LINECOV'], sys.argv[1] + '.json'))
+        sys.exit(rc)
     except SystemExit:
         raise
     except Exception:
